@@ -69,6 +69,19 @@ def cases(ctx):
             for s_ in c["inputs"]:
                 if s_["dtype"].startswith("float"):
                     s_["data"] = [v * rng.choice([1, 1, 1.015, 5, -40]) if isinstance(v, (int, float)) else v for v in s_["data"]]
+                    if rng.random() < 0.4:
+                        # ... among them the very number NumPy uses as its default fill value
+                        free_ = [i_ for i_ in range(len(s_["data"])) if not (s_["mask"] and s_["mask"][i_])]
+                        if free_:
+                            s_["data"][rng.choice(free_)] = rng.choice([1e20, -1e20, 2e20])
+        if cmd == "CvtToFuzzyCat" and rng.random() < 0.2 and c["params"].get("FuzzyValues"):
+            # fuzzy values far outside the range, the default fill value 1e20 among them: limited like any other number
+            c["params"] = dict(c["params"], FuzzyValues=[rng.choice([1e20, v_, 999999, -1e20]) for v_ in c["params"]["FuzzyValues"]], DefaultFuzzyValue=rng.choice([1e20, 0.5, 999999]))
+        if cmd in ("FuzzyOr", "FuzzyAnd", "FuzzyNot") and rng.random() < 0.08:
+            # crisp integer layers holding the integer fill value 999999 in a valid cell
+            for s_ in c["inputs"]:
+                s_["dtype"] = "int64"
+                s_["data"] = [rng.choice([0, 1, -1, 999999]) for _ in s_["data"]]
         if cmd == "CvtToFuzzy" and rng.random() < 0.12:
             # finite data at the limits of double precision: a spread beyond the double range with thresholds left out, and whole
             # thresholds beyond 2^53 that are different integers but the same double
